@@ -134,6 +134,9 @@ def generate(rng, n, tier):
                     yield {"cls": name, "src": src, "clauses": cl, "frame": fr}
             else:
                 yield {"cls": name, "src": src, "clauses": cl}
+                if "filter" in cl:
+                    # a FILTER member that is an OR: the members are conjoined as criteria (the OR keeps its brackets)
+                    yield {"cls": name, "src": src, "clauses": cl, "filter_or": True}
     # OVER() with nothing to partition by: the window clause and a frame must still be rendered
     for name, src, c in cat:
         if src is None:
@@ -207,7 +210,9 @@ def build(case, parts=False):
     chain = ""
     if "distinct" in cl:
         chain += ".distinct()"
-    if "filter" in cl:
+    if "filter" in cl and case.get("filter_or"):
+        chain += ".filter((F('fa') > 1) | (F('fc') == 2), F('fb').isnull())"
+    elif "filter" in cl:
         chain += ".filter(F('fa') > 1, F('fb').isnull())"
     if "over" in cl:
         chain += ".over(F('p1'), F('p2'))"
@@ -254,7 +259,9 @@ def reference(obj, case):
         core = "%s(%s%s%s)" % (obj.name, "DISTINCT " if "distinct" in cl else "", args, special)
     cl = case["clauses"]
     out = core
-    if "filter" in cl:
+    if "filter" in cl and case.get("filter_or"):
+        out += " FILTER(WHERE (\"fa\">1 OR \"fc\"=2) AND \"fb\" IS NULL)"
+    elif "filter" in cl:
         out += " FILTER(WHERE \"fa\">1 AND \"fb\" IS NULL)"
     if "over" in cl or "orderby" in cl or "over_empty" in cl:
         parts = []
@@ -290,7 +297,7 @@ def examine(case):
     except AttributeError as e:
         # rows()/range() twice etc. are not generated; any other construction failure is a harness problem
         raise
-    res.key = struct_hash([case["cls"], cl, case.get("frame") if "frame" in cl else None, case.get("nest"), case.get("stmt"), case.get("given_args")])
+    res.key = struct_hash([case["cls"], cl, case.get("frame") if "frame" in cl else None, case.get("nest"), case.get("stmt"), case.get("given_args"), bool(case.get("filter_or"))])
     res.nontrivial = bool(obj.args) or bool(cl)
     res.tags = ["cls=" + case["cls"].split(".")[0], "nclauses=%d" % len(cl)] + ["has=" + c for c in cl]
     kw = {"quote_char": '"'}
